@@ -66,3 +66,32 @@ pub fn gen_only(choices: Vec<u32>) -> usize {
     gen_proj::files(&p).len();
     p.tests.len()
 }
+
+/// Development aid: run the project generator and the in-process cases on
+/// pseudo-random choice vectors truncated at every length 0..700 (an exhausted
+/// sequence yields 0 for ever: every loop over draws must still terminate).
+pub fn gen_fuzz() -> usize {
+    let mut n = 0;
+    for seed in 1..=6u64 {
+        let mut x = seed.wrapping_mul(0x9E37_79B9_7F4A_7C15) ^ 0xD1B5_4A32_D192_ED03;
+        let full: Vec<u32> = (0..700)
+            .map(|_| {
+                x ^= x << 13;
+                x ^= x >> 7;
+                x ^= x << 17;
+                (x >> 16) as u32
+            })
+            .collect();
+        for len in 0..=full.len() {
+            let mut d = vcore::Draw::new(full[..len].to_vec());
+            let p = gen_proj::generate(&mut d, len % 2 == 0);
+            let _ = gen_proj::files(&p);
+            let mut d = vcore::Draw::new(full[..len].to_vec());
+            let _ = api::range_case(&mut d);
+            let mut d = vcore::Draw::new(full[..len].to_vec());
+            let _ = api::repro_case(&mut d);
+            n += 1;
+        }
+    }
+    n
+}
